@@ -11,6 +11,7 @@
 #include <sys/mman.h>
 #include <sys/wait.h>
 #include <sys/stat.h>
+#include <sys/time.h>
 #include <set>
 
 extern "C" int __llvm_profile_write_file(void) __attribute__((weak)); // present only in the coverage build
@@ -21,6 +22,12 @@ static inline void flush_profile() { if (__llvm_profile_write_file) __llvm_profi
 static Shared g_shared_dummy;
 Shared *g_shared = &g_shared_dummy;
 
+// per-item timeout in CPU time of the process (not wall time): a loaded machine must not turn into an alarm
+static inline void cpu_alarm(unsigned seconds)
+{
+    struct itimerval it; memset(&it, 0, sizeof it); it.it_value.tv_sec = seconds;
+    setitimer(ITIMER_VIRTUAL, &it, nullptr);
+}
 static inline double now_s()
 {
     struct timespec ts; clock_gettime(CLOCK_MONOTONIC, &ts); // wall time for reporting only; never feeds a run
@@ -89,7 +96,7 @@ static inline std::string classify_crash(int status, std::string const &errtext)
     if (WIFSIGNALED(status))
     {
         int sg = WTERMSIG(status);
-        if (sg == SIGALRM) return "timeout";
+        if (sg == SIGALRM || sg == SIGVTALRM) return "timeout";
         return "signal:" + std::to_string(sg);
     }
     if (WIFEXITED(status)) return "exit:" + std::to_string(WEXITSTATUS(status));
@@ -125,7 +132,7 @@ struct Driver
             dup2(efd, 2);
             FILE *lg = nullptr;
             if (want_log) { lg = fdopen(lfd, "w"); if (lg) setvbuf(lg, nullptr, _IONBF, 0); }
-            alarm((unsigned)item_timeout);
+            cpu_alarm((unsigned)item_timeout);
             Stats st;
             sh->phase = 1;
             Result r = eng->execute(p, st, lg);
@@ -342,12 +349,12 @@ struct Driver
         {
             if ((int)((idx + (uint64_t)shift) % (uint64_t)nw) != w) continue;
             fprintf(out, "B %llu\n", (unsigned long long)idx); fflush(out);
-            alarm((unsigned)item_timeout);
+            cpu_alarm((unsigned)item_timeout);
             WorkerSink sink; sink.d = this; sink.idx = idx; sink.record_path = record_path;
             sh->phase = 1; sh->site[0] = 0; sh->op_index = -1;
             eng->run_item(prop, run_seed(batch_seed, idx), tier, st, sink);
             sh->phase = 0;
-            alarm(0);
+            cpu_alarm(0);
             for (size_t kf = 0; kf < sink.known_first.size(); ++kf)
             {
                 Plan kp = sink.known_first[kf].first; Result const &kr = sink.known_first[kf].second;
@@ -383,6 +390,7 @@ struct Driver
         std::map<uint64_t, uint64_t> hashes; // idx -> item hash (only idx < keep_hashes)
         std::vector<RawViolation> viol, known;
         std::vector<uint64_t> crashed_idx;
+        std::map<uint64_t, int> crash_status; // idx -> wait status of the worker that died in it
         Stats st;
         bool wall_capped = false;
     };
@@ -484,7 +492,7 @@ struct Driver
                     wk.pid = -1;
                     if (wk.done || stopping) { --alive; continue; }
                     // died: either after a reported violation (exit 3) or a crash inside item last_begin
-                    if (wk.begun_open && !wk.saw_v) { bo.crashed_idx.push_back((uint64_t)wk.last_begin); ++bo.items; }
+                    if (wk.begun_open && !wk.saw_v) { bo.crashed_idx.push_back((uint64_t)wk.last_begin); bo.crash_status[(uint64_t)wk.last_begin] = status; ++bo.items; }
                     uint64_t nextfirst = (uint64_t)(wk.last_begin + 1);
                     bool more = false;
                     for (uint64_t i = nextfirst; i < total; ++i) if ((int)((i + (uint64_t)shift) % (uint64_t)nw) == w) { more = true; break; }
@@ -567,11 +575,21 @@ struct Driver
             }
         }
         // crashes -> plans
+        uint64_t env_kills = 0;
         for (uint64_t idx : bo.crashed_idx)
         {
             RawViolation rv;
-            if (record_crash(idx, rv)) bo.viol.push_back(rv);
-            else { RawViolation x; x.idx = idx; x.crashed = true; x.cls = "nonreproducible-crash"; x.site = "-"; x.path = ""; bo.viol.push_back(x); }
+            if (record_crash(idx, rv)) { bo.viol.push_back(rv); continue; }
+            int const stt = bo.crash_status.count(idx) ? bo.crash_status[idx] : 0;
+            bool const external = WIFSIGNALED(stt) && (WTERMSIG(stt) == SIGKILL || WTERMSIG(stt) == SIGTERM || WTERMSIG(stt) == SIGHUP || WTERMSIG(stt) == SIGINT);
+            RawViolation rv2;
+            if (external && !record_crash(idx, rv2))
+            { // killed from outside (e.g. the kernel's out-of-memory killer) and the item runs to completion when re-executed, twice
+                printf("NOTE property=%s a worker was killed by signal %d while executing item %llu; the item completes without a violation when re-executed (environmental kill, not a finding)\n", prop.c_str(), WTERMSIG(stt), (unsigned long long)idx);
+                ++env_kills;
+                continue;
+            }
+            RawViolation x; x.idx = idx; x.crashed = true; x.cls = "nonreproducible-crash"; x.site = classify_crash(stt, ""); x.path = ""; bo.viol.push_back(x);
         }
         // group, shrink, gate
         int exit_code = 0;
@@ -585,7 +603,7 @@ struct Driver
         {
             if (handled++ >= 20) break;
             RawViolation const &rv = g.second.front();
-            if (rv.path.empty()) { ++harness_errors; printf("HARNESS-ERROR property=%s item=%llu crash did not reproduce in record mode\n", prop.c_str(), (unsigned long long)rv.idx); continue; }
+            if (rv.path.empty()) { ++harness_errors; printf("HARNESS-ERROR property=%s item=%llu: a worker died (%s) and the death did not recur when the item was re-executed in a fresh process (%zu such items)\n", prop.c_str(), (unsigned long long)rv.idx, rv.site.c_str(), g.second.size()); continue; }
             Plan p; std::string err;
             if (!plan_from_text(read_file(rv.path), *eng, p, err)) { ++harness_errors; printf("HARNESS-ERROR property=%s cannot parse %s: %s\n", prop.c_str(), rv.path.c_str(), err.c_str()); continue; }
             if (eng->foreign(p))
